@@ -494,7 +494,7 @@ def monitor(script, tr):
             elif e == 'ServerClosed':
                 Rt = 0
                 ok_from = None
-        if ok_from is not None and U['final'][3] == 0 and U['final'][0]:
+        if ok_from is not None and U['final'][3] == 0 and U['final'][0] and U['final'][2] != 1:      # (not needed once the server confirmed)
             fires = [k_ for k_, e in enumerate(evs) if e == 'TimerFires' and k_ > ok_from]
             if fires:
                 t = fires[-1]
